@@ -825,6 +825,8 @@ func (p *prover) relevant(goal Lin) []Fact {
 // ---------------------------------------------------------------------------------------------
 // guards
 
+var depthImplied int
+
 func impliedConds(cond ssa.Value, pol bool) []Guard {
 	out := []Guard{{Cond: cond, Pol: pol}}
 	for {
@@ -834,6 +836,36 @@ func impliedConds(cond ssa.Value, pol bool) []Guard {
 			continue
 		}
 		break
+	}
+	// `φ == nil` / `φ != nil` where only one incoming edge can carry such a value (an error
+	// result assigned on several branches): control came along that edge, so what held at the
+	// end of that predecessor holds here
+	if bo, isBo := cond.(*ssa.BinOp); isBo && (bo.Op == token.EQL || bo.Op == token.NEQ) && isNilConst(bo.Y) {
+		if ph, isPhi := bo.X.(*ssa.Phi); isPhi && depthImplied < 4 {
+			wantNil := (bo.Op == token.EQL) == pol
+			var cands []int
+			for i, e := range ph.Edges {
+				if wantNil && definitelyNonNil(e) {
+					continue
+				}
+				if !wantNil && isNilConst(e) {
+					continue
+				}
+				cands = append(cands, i)
+			}
+			if len(cands) == 1 {
+				depthImplied++
+				pred := ph.Block().Preds[cands[0]]
+				for _, g := range GuardsAt(pred) {
+					out = append(out, impliedConds(g.Cond, g.Pol)...)
+				}
+				if ifi, isIf := pred.Instrs[len(pred.Instrs)-1].(*ssa.If); isIf && pred.Succs[0] != pred.Succs[1] {
+					out = append(out, impliedConds(ifi.Cond, pred.Succs[0] == ph.Block())...)
+				}
+				depthImplied--
+			}
+		}
+		return out
 	}
 	phi, ok := cond.(*ssa.Phi)
 	if !ok {
